@@ -2,7 +2,10 @@ import P2sh.Gen.ParseRules
 /-!
 Model of `src/scanner/mod.rs`.  The input is a list of characters (`Vec<char>`); the cursor
 is `(position, readPosition, ch)` exactly as in the code; `ch = '\0'` at and after the end.
-Every `self.input[i]` / `self.input[a..b]` is a checked access yielding `panic`.
+Every `self.input[i]` / `self.input[a..b]` is a checked access yielding `panic` (`S.at`, `S.slice`): the two element reads of
+the literal readers (`b'…` in `read_identifier`, `'…` in `read_char_token`) return `.panic` when the index is out of range, so
+that the `position >= len` guards in front of them are what `scan_total` rests on.  `read_char` / `peek_char` index inside
+the `else` of their own `read_position >= len` test and are modelled as that guarded read.
 Token types are the variant names of `TokenType` (strings), as in `Gen.ParseRules`.
 -/
 namespace P2sh.Scanner
@@ -36,6 +39,9 @@ def init (src : String) : S :=
 /-- `input[a..b].iter().collect()` — `none` is Rust's slice panic -/
 def S.slice (s : S) (a b : Nat) : Option String :=
   if a ≤ b ∧ b ≤ s.input.size then some (String.ofList ((s.input.toList.drop a).take (b - a))) else none
+
+/-- `self.input[i]` — `none` is Rust's index panic -/
+def S.at (s : S) (i : Nat) : Option Char := s.input[i]?
 
 inductive Res where
   | tok (t : Token) (s : S)
@@ -104,18 +110,20 @@ def readIdentifier (s : S) : Res :=
         | some t => .tok (mk s "Illegal" t) s
         | none => .panic
       else
-        let theByte := s.input.getD s.position nul
-        let s := s.readChar
-        if s.ch == '\'' && theByte.toNat < 128 then
+        match s.at s.position with
+        | none => .panic
+        | some theByte =>
           let s := s.readChar
-          .tok (mk s "Byte" (String.singleton theByte)) s
-        else
-          let s := if s.ch == '\'' then s.readChar else s
-          let s := readUntilQuote (s.input.size + 1) s
-          let s := if s.ch == '\'' then s.readChar else s
-          match s.slice position s.position with
-          | some t => .tok (mk s "Illegal" t) s
-          | none => .panic
+          if s.ch == '\'' && theByte.toNat < 128 then
+            let s := s.readChar
+            .tok (mk s "Byte" (String.singleton theByte)) s
+          else
+            let s := if s.ch == '\'' then s.readChar else s
+            let s := readUntilQuote (s.input.size + 1) s
+            let s := if s.ch == '\'' then s.readChar else s
+            match s.slice position s.position with
+            | some t => .tok (mk s "Illegal" t) s
+            | none => .panic
     else .tok (mk s (keyword identifier) identifier) s
 
 def isHexDigit (c : Char) : Bool := c.isDigit || ('a' ≤ c && c ≤ 'f') || ('A' ≤ c && c ≤ 'F')
@@ -173,15 +181,18 @@ def readCharToken (s : S) : Res :=
   let s := s.readChar
   if s.position ≥ s.input.size then .tok (mk s "Illegal" "'") s
   else
-    let theChar := String.singleton (s.input.getD s.position nul)
-    let s := s.readChar
-    if s.ch == '\'' then .tok (mk s "Char" theChar) s
-    else
-      let s := readUntilQuote (s.input.size + 1) s
-      let s := if s.ch == '\'' then s.readChar else s
-      match s.slice position s.position with
-      | some t => .tok (mk s "Illegal" t) s
-      | none => .panic
+    match s.at s.position with
+    | none => .panic
+    | some c =>
+      let theChar := String.singleton c
+      let s := s.readChar
+      if s.ch == '\'' then .tok (mk s "Char" theChar) s
+      else
+        let s := readUntilQuote (s.input.size + 1) s
+        let s := if s.ch == '\'' then s.readChar else s
+        match s.slice position s.position with
+        | some t => .tok (mk s "Illegal" t) s
+        | none => .panic
 
 /-- the arms of `next_token` that end with the common `self.read_char()` -/
 def singleOrTwin (s : S) : Option (Token × S) :=
